@@ -191,6 +191,17 @@ static int cmd_batch(int argc, char **argv) {
 			} else {
 				printf("VIOLC idx=%llu seed=%llu class=%s detail=%s\n", (unsigned long long)idx, (unsigned long long)rs, res.vclass, res.detail);
 			}
+			if (0 != strcmp(res.vsite, "deferred")) {
+				/* the code under test may have run into undefined behaviour (dangling writes ...): do not let that
+				 * contaminate the following runs of this process - hand the rest of the index range to a fresh one */
+				printf("SNAP\nSTAT runs=%llu violations=%llu interesting=%llu sum_steps=%llu max_steps=%llu sum_simns=%llu sum_switches=%llu sum_decisions=%llu wall=%.3f\n",
+				    runs, viol, interesting, sum_steps, max_steps, sum_simns, sum_sw, sum_dec, now_s() - t0);
+				for (int i = 0; i < g_nprobes; i++) printf("PROBE %s %llu %llu\n", g_probes[i].name, g_probes[i].runs, g_probes[i].total);
+				printf("RESTART idx=%llu\n", (unsigned long long)idx);
+				fflush(stdout);
+				if (hf) fclose(hf);
+				_exit(79);
+			}
 		}
 	}
 	printf("SNAP\nSTAT runs=%llu violations=%llu interesting=%llu sum_steps=%llu max_steps=%llu sum_simns=%llu sum_switches=%llu sum_decisions=%llu wall=%.3f\n",
